@@ -300,7 +300,7 @@ PROPS = {
                 "{repo}/tests/data/tiny*", "{repo}/tests/data/pe_*", "{repo}/tests/data/*.dll", "{repo}/tests/data/*.efi",
                 "{repo}/tests/data/weird_rich", "{repo}/tests/data/bad_dotnet_pe", "{repo}/tests/data/0*", "{repo}/tests/data/3*",
                 "{repo}/tests/data/6*", "{repo}/tests/data/7*", "{repo}/tests/data/c*", "{repo}/tests/data/e*"], "max_len": 300000},
-            {"name": "elf", "env": {"VERIF_FAMILY": "elf"}, "seeds": [
+            {"name": "elf", "env": {"VERIF_FAMILY": "elf"}, "seed_gen": "elf_fields", "seeds": [
                 "{repo}/tests/oss-fuzz/elf_fuzzer_corpus/*", "{repo}/tests/data/elf_with_imports"], "max_len": 100000},
             {"name": "macho", "env": {"VERIF_FAMILY": "macho"}, "seeds": [
                 "{repo}/tests/oss-fuzz/macho_fuzzer_corpus/*", "{repo}/tests/data/tiny-macho", "{repo}/tests/data/tiny-universal"],
